@@ -245,6 +245,30 @@ def groupnormalization_20_21(node: ir.Node, op):
     return None
 
 
+def _unconvertible_reason(node: ir.Node, node_version: int, target_version: int) -> str | None:
+    """Why no sequence of adapters can make the node valid at the target version, if so.
+
+    QuantizeLinear-19 and -21 bind x and y_scale to a single type variable; opsets 13-18
+    and 23+ do not. An int32 x with a floating point y_scale cannot be expressed in
+    opsets 19-22 without changing the result.
+    """
+    if node.op_type == "QuantizeLinear" and node_version < 19 <= target_version < 23:
+        x = _get_input(node, 0)
+        y_scale = _get_input(node, 1)
+        if (
+            x is not None
+            and y_scale is not None
+            and x.dtype == ir.DataType.INT32
+            and y_scale.dtype is not None
+            and y_scale.dtype != ir.DataType.INT32
+        ):
+            return (
+                f"QuantizeLinear with x of type {x.dtype} and y_scale of type {y_scale.dtype} "
+                "is not expressible in opsets 19 to 22"
+            )
+    return None
+
+
 class _VersionConverter:
     def __init__(self, target_version: int):
         self._target_version = target_version
@@ -345,6 +369,22 @@ class _VersionConverter:
                         e,
                     )
 
+    def _check_convertible(
+        self, graph_or_function: ir.Graph | ir.Function, default_opset: int | None
+    ) -> None:
+        for node in ir.traversal.RecursiveGraphIterator(graph_or_function):
+            if node.domain != "":
+                continue
+            node_version = node.version or default_opset
+            if node_version is None:
+                continue
+            reason = _unconvertible_reason(node, node_version, self._target_version)
+            if reason is not None:
+                raise VersionConverterError(
+                    f"Cannot convert node {node.name!r} from opset {node_version} to "
+                    f"{self._target_version}: {reason}."
+                )
+
     def visit_model(self, model: ir.Model) -> None:
         model_opset = _get_onnx_opset_version(model)
         # The nodes of a function are written for the opset the function imports,
@@ -353,6 +393,11 @@ class _VersionConverter:
             _get_onnx_opset_version(function) or model_opset
             for function in model.functions.values()
         ]
+        # Refuse before anything is modified: a conversion that cannot be completed must
+        # leave the model as it was.
+        self._check_convertible(model.graph, model_opset)
+        for function, function_opset in zip(model.functions.values(), function_opsets):
+            self._check_convertible(function, function_opset)
         self._default_onnx_opset = model_opset
         self.visit_graph_or_function(model.graph)
         for function, function_opset in zip(model.functions.values(), function_opsets):
